@@ -11,7 +11,7 @@ import re
 import subprocess
 import sys
 
-sys.path.insert(0, '/verif/native')
+sys.path.insert(0, os.path.dirname(os.path.abspath(__file__)))
 import mkmodel as M  # noqa: E402
 
 M.assert_tree()
